@@ -13,6 +13,7 @@ CONSTANTS
   Periods = {1}
   NumGadgets = 16
   MaxScale = 1048576
+  Bug = "none"
   MaxIter = 18
 INVARIANT WellFormedInv
 INVARIANT RVIResidualWithinEps
